@@ -97,12 +97,14 @@ def check(sc, r):
     finals = [i for i, x in enumerate(infos) if not S.is_pending(x["status"])]
     # 0xB001 (Repository Query response-limit warning) is the only tolerated non-final non-Pending status;
     # the scenarios here use the Patient Root model, so any non-Pending response is final
-    term = next(((s, d, t) for s, d, t in ends), None)
+    # only the handler or the *peer* ending the association excuses a missing final response; the handlers of these
+    # scenarios never abort or release, so the excuse is an A-ABORT / A-RELEASE-RQ written by the requestor
+    # (an abort that pynetdicom's SCP decides on by itself because of what the handler returned is not an excuse)
+    term = next(((s, d, t) for s, d, t in ends if d == "c2s"), None)
     if not finals:
-        # legal only if the association was aborted/released first
-        last_seq = infos[-1]["seq"] if infos else None
-        if term is None:
-            out.append(C.v("one-final", "C20/no-final-response/%s" % where, "request %s (msg id %s) got %d pending responses and no final response, and no abort/release crossed the wire" % (rq.name, sc["msg_id"], len(infos))))
+        if term is None or not sc.get("interfere"):
+            self_abort = any(d == "s2c" and t == 7 for s, d, t in ends) or bool(r.evts("acc0", "EVT_ABORTED"))
+            out.append(C.v("one-final", "C20/no-final-response/%s%s" % (where, "/scp-aborted" if self_abort else ""), "request %s (msg id %s) got %d pending responses and no final response although neither the handler nor the peer ended the association (SCP aborted by itself: %s)" % (rq.name, sc["msg_id"], len(infos), self_abort)))
     else:
         if len(finals) > 1:
             out.append(C.v("one-final", "C20/several-final-responses/%s" % where, "request got %d non-Pending responses: %s" % (len(finals), [hex(infos[i]["status"]) for i in finals])))
